@@ -1,4 +1,4 @@
-// Counterexample found by mirsym/z3 for property C19: timesz(N,x,y) ; timesz(N,x,N) answer leaves operand 2 of constraint 0 unbound although the other two are ground e.g. timesz(2, x, y), timesz(3, x, -3)
+// Counterexample found by mirsym/z3 for property C19: timesz(N,x,y) ; timesz(N,x,N) answer leaves operand 2 of constraint 0 unbound although the other two are ground e.g. timesz(0, x, y), timesz(4, x, -4)
 // Replay: /verif/check C19 --replay /verif/replay/cases/C19-S3_timesz_timesz_timesz_N_x_y_timesz_N_x_N_determined_operand_unbound_c0_pos_2.rs   (runs this program natively against /repo)
 use proto_vulcan::prelude::*;
 #[allow(unused_imports)]
@@ -11,8 +11,8 @@ fn replay() {
     let query = proto_vulcan_query!(|q| {
         |x, y| {
             q == [x, y],
-            timesz(2, x, y),
-            timesz(3, x, -3)
+            timesz(0, x, y),
+            timesz(4, x, -4)
         }
     });
     let expected: isize = -2; // -1: any number of answers, but no panic; -2: no unbound variable in any answer
